@@ -7,6 +7,8 @@ Helper lemmas first, the property theorems are in `namespace Gms.C08`.
 -/
 import Gms.Model.Window
 import Gms.Model.GroupAgg
+import Gms.Model.DecAgg
+import Gms.Lemmas.DecAgg
 import Gms.Generated.C08
 open Gms.Window
 
@@ -651,6 +653,99 @@ theorem implQuery_eq_specQuery_partial (f : GFn) (byP : Bool) (rows : List (Val 
 
 example : implEval .avg [some 1, none, some 2] = .rat 3 2 := by decide
 example : implEval .gcDistinct [some 3, some 1, none, some 3] = .text [1, 3] "," := by decide
+
+end
+
+/-! ## D2. Aggregates over shared value objects (DECIMAL cells): read-only statements, independent results
+
+`Gms.DecAgg`: the table stores objects, a buffer holds either an object of its own or the stored object a
+row evaluation returned. The policy the compiled code has is read off the regenerated run-time fact
+`aggAlias` (`facts_alias`); for that policy every statement of a script is the definition on the table's
+*values* and leaves every stored object as it was, whatever ran before (`dec_script_eq_spec`). The other
+policy (the first value of a group becomes the accumulator) is expressible in the same model and breaks
+both halves (`adopt_corrupts_statement`, `adopt_rerun_differs`). -/
+
+section
+open Gms.DecAgg Gms.GroupAgg
+
+/-- the policy of the freshly compiled buffers, from the alias probe (`none` if the probe has neither shape) -/
+def compiledPolicy : Option Policy := policyOf Gms.Generated.C08.aggAlias
+
+/-- regenerated fact: three distinct `*apd.Decimal` objects through every buffer — no input is changed,
+SUM/AVG return an object of their own, MIN/MAX/ANY_VALUE return one of the inputs, and the values are the
+definitions. Exactly what the model computes with `fresh` accumulators. -/
+theorem facts_alias : Gms.Generated.C08.aggAlias = probeTable .fresh ∧ compiledPolicy = some .fresh := by
+  decide
+
+/-- a read-only aggregate statement leaves the heap of stored objects unchanged -/
+theorem dec_stmt_preserves_table (h : Heap) (rows : List TRow) (st : Stmt) :
+    (runStmt .fresh h rows st).1 = h := by
+  simp [runStmt, runGroups_fresh]
+
+theorem specFn_eq (h : Heap) (f : Gms.DecAgg.Fn) (vs : List (Option Nat)) :
+    (vs.foldl (upd h) { fn := f }).eval h = specFn f (vs.map (Option.map (rd h))) := by
+  rw [bufFold_eval]
+  cases f <;> simp only [specFn, deref]
+  all_goals first | rfl | (rw [implEval_eq_specEval_partial]; intro hc; cases hc)
+
+/-- … and every cell of its result is the definition on the values of the group -/
+theorem dec_stmt_eq_spec (h : Heap) (rows : List TRow) (st : Stmt) :
+    (runStmt .fresh h rows st).2 = specStmt h rows st := by
+  simp only [runStmt, runGroups_fresh, specStmt, List.map_map]
+  apply List.map_congr_left
+  intro g _
+  simp only [Function.comp, initBufs, List.map_map]
+  congr 1
+  apply List.map_congr_left
+  intro f _
+  exact specFn_eq h f g.2
+
+/-- a whole script: every statement returns the definition on the *initial* table and every dump is the
+initial table — results of successive statements do not depend on what was executed before -/
+theorem dec_script_eq_spec (h : Heap) (rows : List TRow) : ∀ (sts : List Stmt),
+    runScript .fresh h rows sts = specScript h rows sts
+  | [] => rfl
+  | st :: rest => by
+    have e : runStmt .fresh h rows st = (h, specStmt h rows st) :=
+      Prod.ext (dec_stmt_preserves_table h rows st) (dec_stmt_eq_spec h rows st)
+    simp only [runScript, e, dec_script_eq_spec h rows rest, specScript, List.map_cons]
+
+/-- the same statement twice in a script returns the same rows -/
+theorem dec_rerun_same (h : Heap) (rows : List TRow) (st : Stmt) :
+    (runScript .fresh h rows [st, st]).map (·.1) = [specStmt h rows st, specStmt h rows st] := by
+  rw [dec_script_eq_spec]; rfl
+
+/-- the statement is stated for the policy the compiled code exhibits (`facts_alias`) -/
+theorem dec_script_compiled (h : Heap) (rows : List TRow) (sts : List Stmt) :
+    ∀ pol, compiledPolicy = some pol → runScript pol h rows sts = specScript h rows sts := by
+  intro pol hp
+  rw [facts_alias.2] at hp
+  cases hp
+  exact dec_script_eq_spec h rows sts
+
+/-- non-vacuity + expressiveness: one group 1.50, 2.25, 10.00 -/
+def decDemo : Heap × List TRow := mkTable [(1, some 1, some 150), (2, some 1, some 225), (3, some 1, some 1000)] []
+def decAll : Stmt := { byP := true, fns := [.sum, .min, .max, .avg] }
+
+example : runScript .fresh decDemo.1 decDemo.2 [decAll, decAll] =
+    [([(some 1, [.int 1375, .int 150, .int 1000, .rat 1375 3])], [(1, some 150), (2, some 225), (3, some 1000)]),
+     ([(some 1, [.int 1375, .int 150, .int 1000, .rat 1375 3])], [(1, some 150), (2, some 225), (3, some 1000)])] := by
+  decide
+
+/-- adopting the first value as the accumulator: SUM and AVG add into the *same* stored object, MAX holds a
+reference to it (26.00 / 2.25 / 26.00 / 8.67 instead of 13.75 / 1.50 / 10.00 / 4.58 — the values the engine
+returns with such a buffer), and the stored row is overwritten -/
+theorem adopt_corrupts_statement :
+    runStmt .adopt decDemo.1 decDemo.2 decAll =
+      ([2600, 225, 1000], [(some 1, [.int 2600, .int 225, .int 2600, .rat 2600 3])]) ∧
+    runStmt .adopt decDemo.1 decDemo.2 decAll ≠ (decDemo.1, specStmt decDemo.1 decDemo.2 decAll) := by
+  decide
+
+/-- `SELECT p, SUM(d) … GROUP BY p` alone is right the first time and wrong the second time -/
+theorem adopt_rerun_differs :
+    (runScript .adopt decDemo.1 decDemo.2 [{ byP := true, fns := [.sum] }, { byP := true, fns := [.sum] }]).map (·.1) =
+      [[(some 1, [.int 1375])], [(some 1, [.int 2600])]] := by
+  decide
 
 end
 
